@@ -193,7 +193,7 @@ def StepSpec (s : St) (op : Op) (r : Out × St) : Prop :=
 
 theorem save_cur {fs : FS} {im : Img} (h : ImgOk fs im) (q : Path) :
     save false fs im q = (.saved (savedContent im q), fs.set q (some (.intact (savedContent im q))),
-      if q.cls = im.cls then { im with fname := some q } else im) := by
+      if q.cls = im.cls then { im with fname := some q, hdrAff := im.aff } else im) := by
   unfold save
   rw [writeTo_cur h]
 
@@ -224,6 +224,7 @@ theorem step_safe_aux (s : St) (op : Op) (hw : WF s) (ha : allowed s op = true) 
       | uncache => exact ⟨⟨by simp [step, withImg], rfl⟩, hfs, himg⟩
       | edit k => exact ⟨⟨by simp [step, withImg], rfl⟩, hfs, himg⟩
       | setAff k => exact ⟨⟨by simp [step, withImg], rfl⟩, hfs, himg⟩
+      | hdrEdit k => exact ⟨⟨by simp [step, withImg], rfl⟩, hfs, himg⟩
       | setDt dt => exact ⟨⟨by simp [step, withImg], rfl⟩, hfs, himg⟩
       | save q => exact ⟨⟨by simp [step, withImg], rfl⟩, hfs, himg⟩
       | toBytes => exact ⟨⟨by simp [step, withImg], rfl⟩, hfs, himg⟩
@@ -244,6 +245,11 @@ theorem step_safe_aux (s : St) (op : Op) (hw : WF s) (ha : allowed s op = true) 
           simp only [step, withImg]
           exact ⟨⟨by simp, rfl⟩, wf1 _ hok⟩
       | setAff k =>
+          simp only [step, withImg]
+          by_cases hc : im.cls = .mgh
+          · simp only [hc, if_true]; exact ⟨⟨by simp, rfl⟩, wf1 _ hok⟩
+          · simp only [hc, if_false]; exact ⟨⟨by simp, rfl⟩, wf1 _ hok⟩
+      | hdrEdit k =>
           simp only [step, withImg]
           exact ⟨⟨by simp, rfl⟩, wf1 _ hok⟩
       | setDt dt =>
@@ -267,7 +273,7 @@ theorem step_safe_aux (s : St) (op : Op) (hw : WF s) (ha : allowed s op = true) 
           refine ⟨⟨by simp, rfl, FS.set_same _ _ _, fun p hp => FS.set_other _ _ hp, ?_⟩,
                   FSwf_set_intact hfs q _, ?_⟩
           · by_cases hc : q.cls = im.cls
-            · exact ⟨{ im with fname := some q }, by simp only [hc, if_true], rfl, rfl, rfl, rfl, rfl⟩
+            · exact ⟨{ im with fname := some q, hdrAff := im.aff }, by simp only [hc, if_true], rfl, rfl, rfl, rfl, rfl⟩
             · exact ⟨im, by simp only [hc, if_false], rfl, rfl, rfl, rfl, rfl⟩
           · intro im' h'
             simp only [Option.some.injEq] at h'
